@@ -1769,8 +1769,148 @@ fn c13_twin(k: usize) {
   e::cover("c13-twin-path-complete");
 }
 
+thread_local! {
+  static PHASE: std::cell::Cell<usize> = std::cell::Cell::new(0);
+}
+/// a hot input created per subscription (a handle or a Subject of its own), registered under `base + 10 * phase`
+fn phased(base: usize, kind: u32) -> Obs {
+  observable::defer(move || cat::hot_kind(base + 10 * PHASE.with(|p| p.get()), kind)).box_it()
+}
+
+/// Successive subscriptions: the operator value is built once. Run 1: a single subscription B driven by script B.
+/// Run 2: a clone is first subscribed as A and driven by script A (arbitrary events, errors included) on inputs of
+/// its own, then B as before. B's log must be identical: whatever A went through, nothing of it may be left in the
+/// operator value (flags, latches, counters, and the captured state of user closures, which each subscription must
+/// get as a fresh clone).
+fn c13_successive(k: usize) {
+  use crate::cat::Op2;
+  let unary = {
+    let mut v = model::C03_OPS.to_vec();
+    v.extend_from_slice(model::PASS_OPS);
+    v
+  };
+  let nstate = 4usize;
+  let nbin = crate::cat::OPS2.len();
+  let which = e::choose((nstate + nbin + unary.len()) as u32) as usize;
+  let p = if which >= nstate + nbin { Some(draw_params(unary[which - nstate - nbin], k as u32, 10)) } else { None };
+  let kinds = [e::choose(2), e::choose(2)];
+  let name = if which < nstate {
+    ["map(stateful closure)", "filter_map(stateful closure)", "combine_latest(stateful closure)", "take_while(stateful closure)"][which].to_string()
+  } else if which < nstate + nbin {
+    format!("{:?}", crate::cat::OPS2[which - nstate])
+  } else {
+    op_name(unary[which - nstate - nbin])
+  };
+  let two_inputs = which == 2 || (which >= nstate && which < nstate + nbin);
+  let draw = |n: usize| -> Vec<(usize, Ev)> {
+    (0..n)
+      .map(|_| {
+        let tag = if two_inputs { e::choose(2) as usize } else { 0 };
+        let ev = match e::choose(3) {
+          0 => Ev::Next(Val::var()),
+          1 => Ev::Complete,
+          _ => Ev::Err(Val::var()),
+        };
+        (tag, ev)
+      })
+      .collect()
+  };
+  let script_a = draw(k);
+  let script_b = draw(k);
+  let show = |s: &[(usize, Ev)]| s.iter().map(|(t, e)| format!("{}:{}", t, world::show_ev(e))).collect::<Vec<_>>().join(" ");
+  e::note(format!("{} over {:?} inputs ; first subscription [{}] ; then a second one [{}]", name, kinds, show(&script_a), show(&script_b)));
+  e::cfg_begin(&name);
+  let (a, b, diverged) = e::twice(
+    |second| {
+      PHASE.with(|p| p.set(0));
+      let src = phased(0, kinds[0]);
+      let o: Obs = if which < nstate {
+        match which {
+          0 => {
+            let mut n = 0i64;
+            src.map(move |v: Val| {
+              n += 1;
+              model::plus(&v, &Val::c(n))
+            })
+            .box_it()
+          }
+          1 => {
+            let mut n = 0i64;
+            src.filter_map(move |v: Val| {
+              n += 1;
+              if n % 2 == 1 { Some(v) } else { None }
+            })
+            .box_it()
+          }
+          2 => {
+            let mut n = 0i64;
+            src
+              .combine_latest(phased(1, kinds[1]), move |x: Val, y: Val| {
+                n += 1;
+                (model::plus(&x, &Val::c(n)), y)
+              })
+              .map(|(x, y): (Val, Val)| Val::pair(x, y))
+              .box_it()
+          }
+          _ => {
+            let mut n = 0i64;
+            src
+              .take_while(move |_v: &Val| {
+                n += 1;
+                n <= 2
+              })
+              .box_it()
+          }
+        }
+      } else if which < nstate + nbin {
+        let op2: Op2 = crate::cat::OPS2[which - nstate];
+        crate::cat::build2(op2, src, phased(1, kinds[1]))
+      } else {
+        crate::cat::build(unary[which - nstate - nbin], src, p.as_ref().unwrap())
+      };
+      if second {
+        let pa = fresh_probe();
+        std::mem::forget(o.clone().actual_subscribe(pa));
+        for (tag, ev) in &script_a {
+          cat::feed_hot(*tag, ev);
+        }
+      }
+      PHASE.with(|p| p.set(1));
+      let pb = fresh_probe();
+      std::mem::forget(o.clone().actual_subscribe(pb));
+      for (tag, ev) in &script_b {
+        cat::feed_hot(10 + *tag, ev);
+      }
+      PHASE.with(|p| p.set(0));
+      all_logs_of(pb)
+    },
+    || world::reset_world(),
+  );
+  if diverged {
+    e::fail(&format!("successive/{}/control-flow-diverged", name), || "the run with an earlier subscription asked for different choices".to_string());
+  }
+  let key = format!("successive/{}/later-subscription-differs", name);
+  let detail = || format!("alone [{}] ; after an earlier subscription of a clone [{}]", model::show_events(&a), model::show_events(&b));
+  match model::compare_events(&a, &b) {
+    Ok(t) => e::check(t, &key, detail),
+    Err(why) => e::fail(&key, || format!("{} ; {}", why, detail())),
+  }
+  e::cfg_end(&name);
+  e::cover("c13-successive-path-complete");
+}
+
 pub fn harnesses4() -> Vec<HarnessDef> {
   vec![HarnessDef {
+    id: "c13_successive",
+    props: vec!["C13"],
+    about: "successive subscriptions of clones of one operator value: the second one's log does not depend on what the first one went through (errors included); every unary and two-input operator over handle and Subject inputs, and map / filter_map / combine_latest / take_while with stateful FnMut closures",
+    bounds: |t| format!("{} events for the first and {} for the second subscription; inputs created per subscription", if t { 4 } else { 3 }, if t { 4 } else { 3 }),
+    f: Box::new(|t| c13_successive(if t { 4 } else { 3 })),
+    budget_quick: 600_000,
+    budget_thorough: 40_000_000,
+    thorough_only: false,
+    sampled: true,
+  }, HarnessDef {
     id: "c13_twin",
     props: vec!["C13"],
     about: "non-interference: a clone of the same operator value subscribed a second time (at any moment, with busy inputs, unsubscribed at any moment) leaves the first subscription's log unchanged; 7 scheduler operators, 8 two-input operators, every unary operator",
